@@ -835,7 +835,7 @@ impl World {
             if ctx.giant_refused && p != "C06" && matches!(p.as_str(), "C01" | "C02" | "C03") {
                 extra.push(Failure::new(&format!("C06.after_refusal_{tail}"), x.detail.clone()));
             }
-            if size_op && !ctx.fault_fired && p != "C06" && matches!(p.as_str(), "C01" | "C02" | "C03") {
+            if size_op && p != "C06" && matches!(p.as_str(), "C01" | "C02" | "C03") {
                 extra.push(Failure::new(&format!("C06.size_op_{tail}"), x.detail.clone()));
             }
             // "shrinking never changes the text of any string", "the copy compares equal to the original"
@@ -919,6 +919,14 @@ impl World {
                         clause,
                         format!("{name} failed ({}) but the target changed: {:?} -> {:?}", real.class(), a, b),
                     ));
+                    // "... or leave the target changed after a failure" (C06) also covers a size operation that
+                    // fails because the allocator refused an ordinary request
+                    if clause == "C05.no_effect" && matches!(op, Op::Reserve { .. } | Op::ShrinkTo { .. }) {
+                        f.push(Failure::new(
+                            "C06.no_effect",
+                            format!("{name} failed ({}) but the target changed: {:?} -> {:?}", real.class(), a, b),
+                        ));
+                    }
                 }
                 // a call that fails without writing anything has no reason to stop borrowing a static text
                 if a.kind == Kind::Static && (b.kind != Kind::Static || b.ptr != a.ptr) {
@@ -1169,6 +1177,36 @@ impl World {
                 ctx.eval("C12.lower");
                 if b.cap < lower {
                     f.push(Failure::new("C12.lower", format!("{name}: {} string of len {} grew to len {ml} with capacity {}, below len + len/2 = {lower}", a.kind.name(), a.len, b.cap)));
+                }
+            }
+        }
+
+        // ---- C12 upper bound for operations that may grow in several steps: whichever step grew last started from
+        // a length l <= F (the final length) and needed at most F, so the capacity is at most F + F/2 (or what an
+        // iterator's claimed lower bound made the crate reserve). A collected LeanString may take over the buffer
+        // of its first LeanString item (as String does), which is not growth: those are skipped.
+        {
+            let multi: Option<(Option<&IterSpec>, bool)> = match op {
+                Op::Extend { it, .. } => Some((Some(it), false)),
+                Op::Collect { it, .. } => Some((Some(it), true)),
+                Op::Write { .. } | Op::WriteArg { .. } => Some((None, false)),
+                _ => None,
+            };
+            if let (Some((it, fresh)), Some(b), Some(ml), true, None) = (multi, post_t, model_len_after, real_ok, additional_of(op, r)) {
+                let start = if fresh { Some((0usize, 16usize)) } else { pre_t.as_ref().map(|a| (a.len, if a.kind == Kind::Inline { 16 } else { a.cap })) };
+                let donors = fresh && it.is_some_and(|it| matches!(it.kind, IterKind::Lean | IterKind::LeanSlots));
+                if let (Some((l0, room)), false) = (start, donors) {
+                    if b.kind == Kind::Heap && b.cap > room {
+                        let hint = it.and_then(|it| it.hint).unwrap_or(0);
+                        let upper = (ml + ml / 2).max(l0.saturating_add(hint));
+                        ctx.eval("C12.upper");
+                        if b.cap > upper {
+                            f.push(Failure::new(
+                                "C12.upper",
+                                format!("{name}: a string of len {l0} (room for {room}) ended with len {ml} and capacity {}, above max(len + len/2, what the size hint announced) = {upper}", b.cap),
+                            ));
+                        }
+                    }
                 }
             }
         }
